@@ -91,6 +91,7 @@ let sstmt_of = function
     let d = (match dst with A "_" -> None | L [y; q] -> Some (natof y, path_of q) | _ -> bad "dst") in
     SMod (d, natof x, lop_of m)
   | L [A "swap"; x; p; y; q] -> SSwap (natof x, path_of p, natof y, path_of q)
+  | L [A "opmod"; x; p; f; A wrap; y; m] -> SOpMod (natof x, path_of p, bop_of f, (wrap = "1"), natof y, lop_of m)
   | _ -> bad "sstmt"
 
 let stmt_of = function
